@@ -842,3 +842,97 @@ func resolveLocals(info *types.Info, body *ast.BlockStmt, e ast.Expr) ast.Expr {
 	}
 	return cp(e, 0)
 }
+
+// errorOrientation: inside the branch of `if err == nil` / the else of `if err != nil` the error
+// is known to be nil; returning it, wrapping it or logging it there means the test is the wrong
+// way round: the failure path runs on success, and a real failure falls through as a success
+// ("unreadable files surface as errors rather than as empty successes"). Re-assigning the
+// variable in that branch is fine.
+func (c *Ctx) errorOrientation(rule string, rels ...string) {
+	run := c.Run
+	n := 0
+	errType := types.Universe.Lookup("error").Type()
+	for _, rel := range rels {
+		pk := c.P.Pkg(rel)
+		if pk == nil {
+			continue
+		}
+		info := pk.TypesInfo
+		for _, f := range pk.Syntax {
+			if strings.HasSuffix(c.P.Fset.Position(f.Pos()).Filename, "_test.go") {
+				continue
+			}
+			for _, d := range f.Decls {
+				fd, isFn := d.(*ast.FuncDecl)
+				if !isFn || fd.Body == nil {
+					continue
+				}
+				fname := rel + "." + fd.Name.Name
+				if fd.Recv != nil && len(fd.Recv.List) == 1 {
+					fname = rel + ".(" + typeExprName(fd.Recv.List[0].Type) + ")." + fd.Name.Name
+				}
+				ast.Inspect(fd.Body, func(nd ast.Node) bool {
+					is, ok := nd.(*ast.IfStmt)
+					if !ok {
+						return true
+					}
+					be, ok := ast.Unparen(is.Cond).(*ast.BinaryExpr)
+					if !ok || (be.Op != token.EQL && be.Op != token.NEQ) {
+						return true
+					}
+					var id *ast.Ident
+					switch {
+					case isNilIdent(ast.Unparen(be.Y)):
+						id, _ = ast.Unparen(be.X).(*ast.Ident)
+					case isNilIdent(ast.Unparen(be.X)):
+						id, _ = ast.Unparen(be.Y).(*ast.Ident)
+					}
+					if id == nil {
+						return true
+					}
+					obj := info.ObjectOf(id)
+					if obj == nil || !types.Identical(obj.Type(), errType) {
+						return true
+					}
+					n++
+					var nilBranch ast.Node = is.Body
+					if be.Op == token.NEQ {
+						nilBranch = is.Else
+					}
+					if nilBranch == nil {
+						run.Oblige(true)
+						return true
+					}
+					var bad *ast.Ident
+					assigned := false
+					ast.Inspect(nilBranch, func(m ast.Node) bool {
+						if bad != nil || assigned {
+							return false
+						}
+						switch x := m.(type) {
+						case *ast.FuncLit:
+							return false
+						case *ast.AssignStmt:
+							for _, l := range x.Lhs {
+								if lid, isID := l.(*ast.Ident); isID && info.ObjectOf(lid) == obj {
+									assigned = true // from here on the variable holds a new result
+								}
+							}
+						case *ast.Ident:
+							if info.Uses[x] == obj {
+								bad = x
+							}
+						}
+						return true
+					})
+					run.Oblige(bad == nil)
+					if bad != nil {
+						c.violate(rule, fname, "nil "+id.Name+" used", bad.Pos(), "`"+id.Name+"` is used in the branch where it is known to be nil (`"+exprString(is.Cond)+"`): the error handling runs on success and a failure is taken for a success")
+					}
+					return true
+				})
+			}
+		}
+	}
+	run.Count("error_tests", n)
+}
